@@ -1,6 +1,299 @@
-/- C10 — placeholder while the model is being validated against the implementation; replaced by the real theorems. -/
-import XzVerif.Model.Alloc
+/-
+  C10 — allocation failure at any point is reported cleanly and nothing leaks.
+
+  All statements are about the executable model `Model/Alloc.lean` (heap of live block ids, arbitrary failure
+  oracle `fail : Nat → Bool`, `lzma_next_coder` trees, one allocation script per coder / API call) and hold for
+  ALL failure oracles, ALL histories of API calls and ALL size tables `S`. The tie to the C code is the trace
+  replay of tools/props/c10.py (every k-th allocation of every scenario, plus random subsets).
+
+  `Good h L` (Lemmas/Alloc.lean): no block that was not live has ever been freed (`bad = false`), the live
+  blocks of `h` are exactly the multiset `L`, without duplicates, all older than the next allocation.
+-/
+import XzVerif.Lemmas.AllocWorld
+
 namespace XzVerif.C10
 open XzVerif.Alloc
-theorem placeholder : OK = 0 := rfl
+
+/-- a sane heap to start from: whatever else the application has allocated (`live`), nothing freed wrongly -/
+def HeapWF (h : Heap) : Prop := h.bad = false ∧ h.live.Nodup ∧ ∀ i ∈ h.live, i < h.next
+
+theorem good_of_wf {h : Heap} (hw : HeapWF h) : Good h ([] ++ h.live) := by
+  obtain ⟨h1, h2, h3⟩ := hw
+  refine ⟨h1, fun _ => rfl, fun i => ?_, fun i hi => ?_⟩
+  · exact List.nodup_iff_count_le_one.mp h2 i
+  · exact List.count_eq_zero_of_not_mem (fun hm => by have := h3 i hm; simp at hi; omega)
+
+/-- the 15 public initialisation functions on a `lzma_stream` -/
+def isInit : Op → Bool
+  | .streamEncoder _ | .aloneEncoder _ | .microEncoder _ | .rawEncoder _ | .rawDecoder _ | .blockEncoder _
+  | .blockDecoder _ | .indexEncoder | .streamDecoder | .autoDecoder | .aloneDecoder | .lzipDecoder | .microDecoder
+  | .indexDecoder | .fileInfoDecoder => true
+  | _ => false
+
+/-- calls that work on the handle only (they get no caller-owned index or filter array to write to) -/
+def isHandleOp : Op → Bool
+  | .encode .. | .filtersUpdate _ | .lzmaEnd => true
+  | op => isInit op
+
+variable (S : Sizes)
+
+/-! ### the general invariant -/
+
+/-- Every history of API calls preserves ownership: whatever failed, the live blocks are exactly what the
+    handle and the caller-owned indexes own, plus the untouched rest `F` of the heap. -/
+theorem history_preserves_ownership (ops : List Op) (w : World) (fail : Oracle) (h : Heap) (F : List Nat)
+    (hg : Good h (w.ids ++ F)) :
+    Good (runOps S ops w fail h).2 ((runOps S ops w fail h).1.2.ids ++ F) :=
+  spec_runOps S ops w fail h F hg
+
+/-! ### end_balances -/
+
+/-- Any sequence of public inits of different coders on one handle, coding calls, `lzma_filters_update`,
+    failures, re-inits, index operations ..., finally `lzma_end` (and `lzma_index_end` of what the caller still
+    owns): the heap after equals the heap before, for every failure oracle. -/
+theorem end_balances (ops : List Op) (fail : Oracle) (h : Heap) (hw : HeapWF h) :
+    let r := (runOps S ops {} >>= fun r => cleanup r.2) fail h
+    r.2.live.Perm h.live ∧ r.2.bad = false := by
+  have hs : Spec (runOps S ops {} >>= fun r => cleanup r.2) ([] : List Nat) (fun _ => []) :=
+    Spec.bind (Spec.conseq (spec_runOps S ops {}) (by intro i; rfl) (fun _ => CEq.rfl')) (fun r => spec_cleanup r.2)
+  have g := hs fail h h.live (good_of_wf hw)
+  exact ⟨CEq.perm (by simpa using g.2.1), g.1⟩
+
+/-- the same from an arbitrary reachable state `w` -/
+theorem end_balances_from (ops : List Op) (w : World) (fail : Oracle) (h : Heap) (F : List Nat)
+    (hg : Good h (w.ids ++ F)) :
+    Good ((runOps S ops w >>= fun r => cleanup r.2) fail h).2 F := by
+  have hs : Spec (runOps S ops w >>= fun r => cleanup r.2) w.ids (fun _ => []) :=
+    Spec.bind (spec_runOps S ops w) (fun r => spec_cleanup r.2)
+  simpa using hs fail h F hg
+
+/-! ### no_double_free -/
+
+/-- No script ever frees a block that is not live (free of a non-live id sets `bad` in the model): after every
+    history, under every failure oracle, `bad` is still false. (Every prefix of a history is a history.) -/
+theorem no_double_free (ops : List Op) (fail : Oracle) (h : Heap) (hw : HeapWF h) :
+    (runOps S ops {} fail h).2.bad = false :=
+  (spec_runOps S ops {} fail h h.live (good_of_wf hw)).1
+
+/-- ... and no block is ever owned twice (no aliasing that a later `end` could free twice). -/
+theorem owned_blocks_distinct (ops : List Op) (fail : Oracle) (h : Heap) (hw : HeapWF h) :
+    ∀ i, ((runOps S ops {} fail h).1.2.ids ++ h.live).count i ≤ 1 :=
+  (spec_runOps S ops {} fail h h.live (good_of_wf hw)).2.2.1
+
+/-! ### init_fail_leaves_nothing -/
+
+theorem strmInit_fail (op : NodeOp) (w : World) (f : Oracle) (h : Heap)
+    (hr : (strmInit S op w f h).1.1 ≠ OK) :
+    (strmInit S op w f h).1.2.strm = none ∧ (strmInit S op w f h).1.2.ix = w.ix := by
+  unfold strmInit at hr ⊢
+  simp only [run_bind] at hr ⊢
+  cases hc : (strmEnsure S w f h).1 with
+  | none => simp [hc]
+  | some p =>
+    obtain ⟨i, n⟩ := p
+    simp only [hc, run_bind] at hr ⊢
+    by_cases hne : ((op n f (strmEnsure S w f h).2).1.1 != OK) = true
+    · simp only [hne, if_true, run_bind, run_pure]
+      exact ⟨lzmaEnd_strm _ _ _, lzmaEnd_ix _ _ _⟩
+    · simp only [hne] at hr
+      simp at hr
+
+theorem runOp_init_eq (op : Op) (hop : isInit op = true) (w : World) :
+    ∃ nop : NodeOp, runOp S w op = strmInit S nop w := by
+  cases op <;> simp [isInit] at hop <;> exact ⟨_, rfl⟩
+
+/-- A public init function that does not return `LZMA_OK` (in particular `LZMA_MEM_ERROR` after ANY pattern
+    of allocation failures) leaves `strm->internal == NULL`, the caller's objects as they were, and NOTHING
+    allocated that was not allocated before the call — even if the handle held another coder before. -/
+theorem init_fail_leaves_nothing (op : Op) (hop : isInit op = true) (w : World) (fail : Oracle) (h : Heap)
+    (F : List Nat) (hg : Good h (w.ids ++ F)) (hr : (runOp S w op fail h).1.1 ≠ OK) :
+    (runOp S w op fail h).1.2.strm = none ∧ (runOp S w op fail h).1.2.ix = w.ix
+      ∧ Good (runOp S w op fail h).2 (ixListIds w.ix ++ F) := by
+  obtain ⟨nop, he⟩ := runOp_init_eq S op hop w
+  have hg' := wsafe_runOp S op w fail h F hg
+  rw [he] at hr hg' ⊢
+  obtain ⟨h1, h2⟩ := strmInit_fail S nop w fail h hr
+  refine ⟨h1, h2, ?_⟩
+  have : (strmInit S nop w fail h).1.2.ids = ixListIds w.ix := by
+    rw [World.ids_def, h1, h2]; rfl
+  rwa [this] at hg'
+
+/-! ### reinit_reuse_sound -/
+
+/-- `lzma_next_coder_init` with the SAME init function: the coder is kept, nothing is freed or allocated. -/
+theorem reinit_same_keeps_coder (i : Nat) (n : Node) (hn : n.init = i) : guard i n = pure (OK, n) := by
+  unfold guard; simp [hn]
+
+/-- ... and the coder struct itself is reused, not reallocated. -/
+theorem reinit_same_reuses_struct (sz : Nat) (fresh : NodeOp) (i self : Nat) (bufs : List (Option Nat)) (data : List Nat)
+    (opts : List (Option Nat)) (ix0 ix1 : Option Index) (s0 s1 : Node) :
+    allocSelf sz fresh (.mk i self bufs data opts ix0 ix1 s0 s1) = pure (OK, .mk i self bufs data opts ix0 ix1 s0 s1) := rfl
+
+/-- `lzma_next_coder_init` with a DIFFERENT init function: the whole old chain is ended first — every block
+    it owned is freed (exactly once) — and the slot is left as `{init = new, coder = NULL}`. -/
+theorem reinit_different_ends_old_chain (i : Nat) (n : Node) (hn : n.init ≠ i) (fail : Oracle) (h : Heap) (F : List Nat)
+    (hg : Good h (n.ids ++ F)) :
+    (guard i n fail h).1 = (OK, Node.null i) ∧ Good (guard i n fail h).2 F := by
+  have hne : (n.init != i) = true := by simpa using hn
+  constructor
+  · unfold guard; simp [hne]
+  · have := safe_guard i n fail h F hg
+    have h2 : (guard i n fail h).1 = (OK, Node.null i) := by unfold guard; simp [hne]
+    rw [h2] at this
+    simpa using this
+
+/-! ### filters_copy_atomic, index_*_atomic -/
+
+/-- `lzma_filters_copy`: on failure nothing stays allocated and there is no result to write to the destination
+    (the model returns `none`; the C code only `memcpy`s to `real_dest` on the success path); on success the
+    new option structs are exactly the new live blocks. -/
+theorem filters_copy_atomic (sizes : List (Option Nat)) (fail : Oracle) (h : Heap) (F : List Nat) (hg : Good h F) :
+    match (filtersCopy sizes fail h).1 with
+    | none => Good (filtersCopy sizes fail h).2 F
+    | some d => Good (filtersCopy sizes fail h).2 (optIds d ++ F) := by
+  have := spec_filtersCopy sizes fail h F (by simpa using hg)
+  cases hc : (filtersCopy sizes fail h).1 with
+  | none => rw [hc] at this; simpa [optPost] using this
+  | some d => rw [hc] at this; simpa [optPost] using this
+
+theorem filters_copy_fail_heap_unchanged (sizes : List (Option Nat)) (fail : Oracle) (h : Heap) (hw : HeapWF h)
+    (hn : (filtersCopy sizes fail h).1 = none) : (filtersCopy sizes fail h).2.live.Perm h.live := by
+  have := filters_copy_atomic sizes fail h h.live (by simpa using good_of_wf hw)
+  rw [hn] at this
+  exact CEq.perm this.2.1
+
+/-- `lzma_index_append`: a failing call returns the index unchanged, and allocates nothing. -/
+theorem index_append_atomic (i : Index) (fail : Oracle) (h : Heap) (F : List Nat) (hg : Good h (i.ids ++ F))
+    (hr : (indexAppend S i fail h).1.1 ≠ OK) :
+    (indexAppend S i fail h).1.2 = i ∧ Good (indexAppend S i fail h).2 (i.ids ++ F) := by
+  have hgood := spec_indexAppend S i fail h F hg
+  have hval : (indexAppend S i fail h).1.2 = i := by
+    unfold indexAppend at hr ⊢
+    split
+    · rename_i hc; simp [hc] at hr; exact absurd rfl hr
+    · rename_i hc
+      simp only [hc, run_bind] at hr ⊢
+      cases ha : (alloc (some (S.indexGroup + i.prealloc * S.indexRecord)) fail h).1 with
+      | none => simp [ha]
+      | some g => simp [ha] at hr; exact absurd rfl hr
+  exact ⟨hval, by rw [hval] at hgood; exact hgood⟩
+
+/-- `lzma_index_cat`: the allocation happens before either index is modified: a failing call returns both
+    indexes unchanged and the heap as it was. -/
+theorem index_cat_atomic (d s : Index) (fail : Oracle) (h : Heap) (F : List Nat) (hg : Good h (d.ids ++ s.ids ++ F))
+    (e : Ret) (d' s' : Index) (hr : (indexCat S d s fail h).1 = .fail e d' s') :
+    d' = d ∧ s' = s ∧ Good (indexCat S d s fail h).2 (d.ids ++ s.ids ++ F) := by
+  have hgood := spec_indexCat S d s fail h F (by simpa using hg)
+  have hval : d' = d ∧ s' = s := by
+    unfold indexCat at hr
+    simp only [] at hr
+    generalize hsh : (d.lastG.isSome && decide (d.lastUsed < d.lastAlloc)) = shrink at hr
+    cases shrink with
+    | false => simp [pure_bind'] at hr
+    | true =>
+      simp only [Bool.true_and, if_true, run_bind] at hr
+      cases ha : (alloc (some (S.indexGroup + d.lastUsed * S.indexRecord)) fail h).1 with
+      | none => simp [ha] at hr; exact ⟨hr.2.1.symm, hr.2.2.symm⟩
+      | some g => simp [ha] at hr
+  obtain ⟨rfl, rfl⟩ := hval
+  rw [hr] at hgood
+  exact ⟨rfl, rfl, by simpa [CatRes.ids] using hgood⟩
+
+/-- `lzma_index_dup`: when it returns NULL everything it had allocated for the partial copy has been freed. -/
+theorem index_dup_unwinds (src : Index) (fail : Oracle) (h : Heap) (F : List Nat) (hg : Good h F)
+    (hr : (indexDup S src fail h).1 = none) : Good (indexDup S src fail h).2 F := by
+  have := spec_indexDup S src fail h F (by simpa using hg)
+  rw [hr] at this
+  simpa using this
+
+/-! ### caller_objects_untouched -/
+
+theorem onRoot_ix (op : NodeOp) (w : World) (f : Oracle) (h : Heap) : (onRoot op w f h).1.2.ix = w.ix := by
+  unfold onRoot
+  cases hs : w.strm with
+  | none => simp
+  | some p => obtain ⟨i, n⟩ := p; simp
+
+theorem strmInit_ix (op : NodeOp) (w : World) (f : Oracle) (h : Heap) : (strmInit S op w f h).1.2.ix = w.ix := by
+  by_cases hr : (strmInit S op w f h).1.1 = OK
+  · unfold strmInit at hr ⊢
+    simp only [run_bind] at hr ⊢
+    cases hc : (strmEnsure S w f h).1 with
+    | none => simp [hc]
+    | some p =>
+      obtain ⟨i, n⟩ := p
+      simp only [hc, run_bind] at hr ⊢
+      by_cases hne : ((op n f (strmEnsure S w f h).2).1.1 != OK) = true
+      · simp only [hne, if_true, run_bind, run_pure]; exact lzmaEnd_ix _ _ _
+      · simp [hne]
+  · exact (strmInit_fail S op w f h hr).2
+
+/-- Calls on the handle (all inits, coding with an encoder, `lzma_filters_update`, `lzma_end`) never touch the
+    caller-owned `lzma_index` objects — whether they fail or not. (Filter arrays passed to them are plain
+    inputs of the model: they cannot be modified by construction; the harness compares their bytes.) -/
+theorem caller_objects_untouched (op : Op) (hop : isHandleOp op = true) (w : World) (fail : Oracle) (h : Heap) :
+    (runOp S w op fail h).1.2.ix = w.ix := by
+  cases op <;> simp [isHandleOp, isInit] at hop <;>
+    first
+    | exact strmInit_ix S _ w fail h
+    | exact onRoot_ix _ w fail h
+    | (simp only [runOp, run_bind, run_pure]; exact lzmaEnd_ix _ _ _)
+
+/-! ### encoder_update_atomic -/
+
+/-- `stream_encoder_update` copies the new chain to a temporary first: if that copy fails, the encoder is
+    exactly as before (same coder tree, same option array) and nothing stays allocated. -/
+theorem encoder_update_atomic (c : Chain) (n : Node) (fail : Oracle) (h : Heap) (F : List Nat) (hg : Good h (n.ids ++ F))
+    (hc : (filtersCopy (c.map (optSizeCopy S)) fail h).1 = none) :
+    (streamEncoderUpdate S c n fail h).1 = (MEM_ERROR, n) ∧ Good (streamEncoderUpdate S c n fail h).2 (n.ids ++ F) := by
+  have hv : (streamEncoderUpdate S c n fail h).1 = (MEM_ERROR, n) := by
+    unfold streamEncoderUpdate replaceOpts
+    simp only [run_bind, hc, run_pure]
+  refine ⟨hv, ?_⟩
+  have := safe_streamEncoderUpdate S c n fail h F hg
+  rw [hv] at this
+  exact this
+
+/-- full statement: ANY failing update leaves the encoder's own filter-option array as it was -/
+def encoder_update_keeps_options_statement : Prop :=
+  ∀ (S : Sizes) (c : Chain) (i self : Nat) (bufs : List (Option Nat)) (data : List Nat) (opts : List (Option Nat))
+    (ix0 ix1 : Option Index) (s0 s1 : Node) (fail : Oracle) (h : Heap),
+    (streamEncoderUpdate S c (.mk i self bufs data opts ix0 ix1 s0 s1) fail h).1.1 ≠ OK →
+    ∃ bufs' data' ix0' ix1' s0' s1',
+      (streamEncoderUpdate S c (.mk i self bufs data opts ix0 ix1 s0 s1) fail h).1.2 = .mk i self bufs' data' opts ix0' ix1' s0' s1'
+
+/-! ### non-vacuity: concrete histories evaluated by the kernel -/
+
+/-- a small size table for the examples (the theorems hold for every table) -/
+def exS : Sizes :=
+  { internal := 104, streamEnc := 1504, streamDec := 1416, blockEnc := 224, blockDec := 248, aloneEnc := 112, aloneDec := 232,
+    lzipDec := 280, autoDec := 96, indexEnc := 336, indexDec := 72, fileInfo := 8544, microEnc := 88, microDec := 104,
+    indexHash := 320, lzEnc := 240, lzDec := 4288, lzma1Enc := 249552, lzma1Dec := 28352, lzma2Enc := 65704, lzma2Dec := 184,
+    delta := 352, simple := 144, simpleX86 := 8, index := 80, indexStream := 168, indexGroup := 64, indexRecord := 16,
+    optLzma := 112, optDelta := 40, optBcj := 4, strAlloc := 800, indexGroupSize := 512, dictRepeatMax := 288, dictExtra := 32,
+    memcmplenExtra := 8, opts := 4096, loopInputMax := 4097, matchLenMax := 273, lzma2ChunkMax := 65536, hash2Size := 1024,
+    hash3Size := 65536 }
+
+def exChain : Chain := [.bcj 0 none, .delta 4, .lzma true 65536 4 32 1]
+
+/-- stream encoder, data, re-init as a stream decoder on the same handle, decode two Blocks, `lzma_end`:
+    with the 9th allocation failing the init reports LZMA_MEM_ERROR, later calls still work, and at the end
+    the heap is empty and `bad` is false. -/
+def exHistory : List Op :=
+  [.streamEncoder exChain, .encode exChain 0 100, .streamDecoder, .decode (.xz exChain 2 1) 0, .aloneDecoder,
+   .decode (.lzma 65536) 0, .ixInit 0, .ixAppend 0 3, .ixDup 1 0, .ixCat 0 1]
+
+example : ((runOps exS exHistory {} >>= fun r => cleanup r.2) (fun k => k == 9) {}).2.live = [] := by decide +kernel
+example : ((runOps exS exHistory {} >>= fun r => cleanup r.2) (fun k => k == 9) {}).2.bad = false := by decide +kernel
+-- the failure is really hit: the first call returns LZMA_MEM_ERROR (5), the re-init on the same handle succeeds
+example : (runOps exS exHistory {} (fun k => k == 9) {}).1.1.take 3 = [MEM_ERROR, PROG_ERROR, OK] := by decide +kernel
+-- and without failures everything succeeds and the handle + two indexes own blocks before the clean-up
+example : (runOps exS exHistory {} (fun _ => false) {}).1.1 = [OK, OK, OK, STREAM_END, OK, STREAM_END, OK, OK, OK, OK] := by
+  decide +kernel
+example : (runOps exS exHistory {} (fun _ => false) {}).2.live.length = 10 := by decide +kernel
+-- every second allocation failing: still balanced
+example : ((runOps exS exHistory {} >>= fun r => cleanup r.2) (fun k => k % 2 == 1) {}).2.live = [] := by decide +kernel
+-- the empty heap is a sane start
+example : HeapWF {} := ⟨rfl, List.nodup_nil, by intro i hi; cases hi⟩
+
 end XzVerif.C10
